@@ -6,6 +6,7 @@ require (
 	github.com/sarchlab/akita/v4 v4.9.0
 	github.com/sarchlab/mgpusim/v4 v4.0.0
 	github.com/sirupsen/logrus v1.9.3
+	github.com/tebeka/atexit v0.3.0
 )
 
 require (
@@ -15,7 +16,6 @@ require (
 	github.com/rs/xid v1.6.0 // indirect
 	github.com/shirou/gopsutil v3.21.11+incompatible // indirect
 	github.com/syifan/goseth v0.1.2 // indirect
-	github.com/tebeka/atexit v0.3.0 // indirect
 	github.com/tklauser/go-sysconf v0.3.15 // indirect
 	github.com/tklauser/numcpus v0.10.0 // indirect
 	go.uber.org/mock v0.6.0 // indirect
